@@ -1,17 +1,17 @@
 SPECIFICATION Spec
 CONSTANTS
-  RangeCfgs = {"r248", "r26"}
+  RangeCfgs = {"r248"}
   OvModes = {TRUE, FALSE}
   TNeg = 4
   TMax = 8
   ExtraOffs = {1, 5}
   ExtraLens = {2, 3}
-  Attrs = {"reg", "fail", "tmid", "ooo", "stale"}
+  Attrs = {"reg", "fail", "tmid", "stale"}
   MaxBlocks = 4
   Interleave = FALSE
   MaxOps = 0
   EmitMode = "none"
 VIEW View
-INVARIANTS TypeOK PlanLegal KindOK NeverMixesClasses NewestAndFailedExcluded RegularNotStarved MergedOK RunBounded EmitState
+INVARIANTS TypeOK PlanLegal KindOK NeverMixesClasses NewestAndFailedExcluded RegularNotStarved MergedOK RunBounded
 PROPERTIES RankDecreases NoWiden
 CHECK_DEADLOCK FALSE
